@@ -267,6 +267,11 @@ class Session(Thread):
             self._dispatch_error(SessionCloseError(self._buffer.getvalue()))
         except Exception as e:
             self.logger.debug("Broke out of main loop, error=%r", e)
+            if self._closing.is_set() and not isinstance(e, TransportError):
+                # close() closed the transport under a read or write in progress
+                # (EBADF, "Read on closed SSL socket", ...): that is the expected end
+                # of the session, outstanding requests get a transport error
+                e = SessionCloseError(self._buffer.getvalue())
             self._dispatch_error(e)
             self.close()
 
